@@ -417,7 +417,7 @@ def run(tier, seed):
                 "reattach_interface) with all registries projected and compared after every step; arithmetic: TLC recomputes every "
                 "recorded mask_bit/_get_network_ip/translate_address call in 16-bit limbs",
     }, ["statically configured addresses are pairwise distinct and lie outside the DHCP range of their network (the property itself "
-        "requires allocation to hand out every address of the range); other configurations are built but not operated on",
+        "requires allocation to hand out every address of the range) and subnets of different netconfigs do not overlap; other configurations are built but not operated on",
         "the proxy-ARP variant of reattach_interface deliberately shares an address and is outside the invariant",
         "vm objects are stubs as in the selftests"],
         time.time() - t0, len(v.violations))
